@@ -125,3 +125,8 @@ from contracts.c03 import liesel_unit, simple_iface_unit  # noqa: E402
 for _c in ("DictInterface", "DataclassInterface", "NamedTupleInterface"):
     simple_iface_unit(_c, uid=f"C12.position_flattens_in_sorted_key_order.{_c}", prop="C12")
 liesel_unit("hier", uid="C12.position_flattens_in_sorted_key_order.LieselInterface", prop="C12")
+
+# the history reaches _tune_slow as the engine handed it over - whatever the number of tracked keys (same harness as C07.mixins)
+from contracts.c07 import mixins_unit  # noqa: E402
+
+mixins_unit("C12.tuning_dispatch_forwards_the_history", "C12")
